@@ -156,101 +156,132 @@ Section P.
   Qed.
 
   (* ---- verify_credentials ---- *)
-  Lemma pairing_data_error p pd e : pairing_data p pd = inr e -> e = EAuthentication \/ e = EIndexError.
+  Lemma pairing_data_error k p pd e : pairing_data k p pd = inr e -> e = EAuthentication \/ e = EIndexError.
   Proof.
     unfold pairing_data. intro H.
     assert (G: match read_tlv pd with
-               | TOk t => match p with AirPlay => inl t | _ => if has_tag T_Error t then inr EAuthentication else inl t end
+               | TOk t => if chk_error k && has_tag T_Error t then inr EAuthentication else inl t
                | TIndexError => inr EIndexError
                | TOutOfFuel => inr EOther
                end = inr e -> e = EAuthentication \/ e = EIndexError).
     { pose proof (read_tlv_terminates pd) as Hterm.
       destruct (read_tlv pd) as [t| |]; [|intro G; inversion G; auto|congruence].
-      destruct p; [destruct (has_tag T_Error t)|destruct (has_tag T_Error t)|]; intro G; inversion G; auto. }
+      destruct (chk_error k && has_tag T_Error t); intro G; inversion G; auto. }
     destruct p; [exact (G H)| |exact (G H)].
     destruct pd; [inversion H; auto|exact (G H)].
   Qed.
 
-  Lemma verify_credentials_accept_iff p h c f1 pd f3 reply :
-    verify_credentials p h c f1 pd f3 = Accept reply <->
-    f1 = None /\ f3 = None /\
+  (* the answer to the last message matters only where the code looks at it *)
+  Definition m4_ok (k : pcfg) (p : proto) (pd4 : bytes) : Prop :=
+    chk_m4 k = true -> exists t4, pairing_data k p pd4 = inl t4.
+
+  Lemma verify_credentials_accept_iff k p h c f1 pd f3 pd4 reply :
+    verify_credentials k p h c f1 pd f3 pd4 = Accept reply <->
+    f1 = None /\ f3 = None /\ m4_ok k p pd4 /\
     exists t spub encd,
-      pairing_data p pd = inl t /\ get T_PublicKey t = Some spub /\ get T_EncryptedData t = Some encd /\
+      pairing_data k p pd = inl t /\ get T_PublicKey t = Some spub /\ get T_EncryptedData t = Some encd /\
       proves_identity h c spub encd reply.
   Proof.
-    unfold Model.verify_credentials. split.
+    unfold Model.verify_credentials, m4_ok. split.
     - intro H. destruct f1; [discriminate|].
-      destruct (pairing_data p pd) as [t|] eqn:Ep; [|discriminate].
+      destruct (pairing_data k p pd) as [t|] eqn:Ep; [|discriminate].
       destruct (get T_PublicKey t) as [spub|] eqn:Es; [|discriminate].
       destruct (get T_EncryptedData t) as [encd|] eqn:Ee; [|discriminate].
       destruct (verify1 h c spub encd) as [r|] eqn:Ev; [|discriminate].
-      destruct f3; [discriminate|]. inversion H; subst r.
-      split; [reflexivity|]. split; [reflexivity|]. exists t, spub, encd.
+      destruct f3; [discriminate|].
+      assert (Hr: r = reply /\ (chk_m4 k = true -> exists t4, pairing_data k p pd4 = inl t4)).
+      { destruct (chk_m4 k).
+        - destruct (pairing_data k p pd4) as [t4|] eqn:E4; [|discriminate]. inversion H. split; [reflexivity|]. intros _. now exists t4.
+        - inversion H. split; [reflexivity|discriminate]. }
+      destruct Hr as [-> H4].
+      split; [reflexivity|]. split; [reflexivity|]. split; [exact H4|]. exists t, spub, encd.
       split; [reflexivity|]. split; [assumption|]. split; [assumption|].
       now apply verify1_accept_iff.
-    - intros (-> & -> & t & spub & encd & Ep & Es & Ee & Hp).
-      rewrite Ep, Es, Ee. apply verify1_accept_iff in Hp. now rewrite Hp.
+    - intros (-> & -> & H4 & t & spub & encd & Ep & Es & Ee & Hp).
+      rewrite Ep, Es, Ee. apply verify1_accept_iff in Hp. rewrite Hp.
+      destruct (chk_m4 k); [|reflexivity]. destruct (H4 eq_refl) as [t4 E4]. now rewrite E4.
   Qed.
 
   (* without a transport fault only reply errors are raised *)
-  Lemma verify_credentials_raise_class p h c pd e :
-    verify_credentials p h c None pd None = Raises e -> reply_error e.
+  Lemma verify_credentials_raise_class k p h c pd pd4 e :
+    verify_credentials k p h c None pd None pd4 = Raises e -> reply_error e.
   Proof.
     unfold Model.verify_credentials, reply_error. intro H.
-    destruct (pairing_data p pd) as [t|e0] eqn:Ep.
+    destruct (pairing_data k p pd) as [t|e0] eqn:Ep.
     - destruct (get T_PublicKey t) as [spub|]; [|inversion H; auto 6].
       destruct (get T_EncryptedData t) as [encd|]; [|inversion H; auto 6].
-      destruct (verify1 h c spub encd) as [r|e1] eqn:Ev; [discriminate|].
-      inversion H; subst e1. exact (verify1_raise_class _ _ _ _ _ Ev).
-    - inversion H; subst e0. apply pairing_data_error in Ep. destruct Ep as [->| ->]; auto.
+      destruct (verify1 h c spub encd) as [r|e1] eqn:Ev.
+      + destruct (chk_m4 k); [|discriminate].
+        destruct (pairing_data k p pd4) as [t4|e4] eqn:E4; [discriminate|].
+        inversion H; subst e4. apply pairing_data_error in E4. destruct E4 as [->| ->]; auto 6.
+      + inversion H; subst e1. exact (verify1_raise_class _ _ _ _ _ Ev).
+    - inversion H; subst e0. apply pairing_data_error in Ep. destruct Ep as [->| ->]; auto 6.
   Qed.
 
   (* with a fault, the fault is what is raised unless the reply was already refused *)
-  Lemma verify_credentials_fault p h c f1 pd f3 e :
-    verify_credentials p h c f1 pd f3 = Raises e ->
-    f1 = Some e \/ f3 = Some e \/ (f1 = None /\ verify_credentials p h c None pd None = Raises e).
+  Lemma verify_credentials_fault k p h c f1 pd f3 pd4 e :
+    verify_credentials k p h c f1 pd f3 pd4 = Raises e ->
+    f1 = Some e \/ f3 = Some e \/ (f1 = None /\ verify_credentials k p h c None pd None pd4 = Raises e).
   Proof.
     unfold Model.verify_credentials. intro H. destruct f1 as [e1|]; [inversion H; auto|].
-    destruct (pairing_data p pd) as [t|e0]; [|auto].
+    destruct (pairing_data k p pd) as [t|e0]; [|auto].
     destruct (get T_PublicKey t) as [spub|]; [|auto].
     destruct (get T_EncryptedData t) as [encd|]; [|auto].
     destruct (verify1 h c spub encd) as [r|e1]; [|auto].
-    destruct f3 as [e3|]; [inversion H; auto|discriminate].
+    destruct f3 as [e3|]; [inversion H; auto|auto].
   Qed.
 
-  (* the third message that leaves is our own signature TLV under the session key *)
-  Lemma m3_sent_iff p h c f1 pd m :
-    m3_sent p h c f1 pd = Some m <-> verify_credentials p h c f1 pd None = Accept m.
+  (* the third message that leaves is our own signature TLV under the session key: it is sent
+     exactly when everything up to and including verify1 succeeded *)
+  Lemma m3_sent_iff k p h c f1 pd m :
+    m3_sent k p h c f1 pd = Some m <->
+    f1 = None /\ exists t spub encd,
+      pairing_data k p pd = inl t /\ get T_PublicKey t = Some spub /\ get T_EncryptedData t = Some encd /\
+      proves_identity h c spub encd m.
   Proof.
-    unfold Model.m3_sent. destruct (verify_credentials p h c f1 pd None); split; intro H; inversion H; reflexivity.
+    unfold Model.m3_sent.
+    assert (Hpd: forall x, pairing_data {| chk_error := chk_error k; chk_m4 := false |} p x = pairing_data k p x) by reflexivity.
+    destruct (verify_credentials {| chk_error := chk_error k; chk_m4 := false |} p h c f1 pd None []) as [r|e] eqn:E.
+    - apply verify_credentials_accept_iff in E as (F1 & _ & _ & t & spub & encd & Ep & Es & Ee & Hp).
+      rewrite Hpd in Ep. split.
+      + intro H. inversion H; subst r. split; [exact F1|]. now exists t, spub, encd.
+      + intros (_ & t' & spub' & encd' & Ep' & Es' & Ee' & Hp').
+        assert (t' = t) by congruence. subst t'. assert (spub' = spub) by congruence. assert (encd' = encd) by congruence. subst.
+        apply verify1_accept_iff in Hp, Hp'. congruence.
+    - split; [discriminate|].
+      intros (F1 & t & spub & encd & Ep & Es & Ee & Hp). exfalso.
+      assert (A: verify_credentials {| chk_error := chk_error k; chk_m4 := false |} p h c f1 pd None [] = Accept m).
+      { apply verify_credentials_accept_iff. split; [exact F1|]. split; [reflexivity|]. split; [intro X; discriminate X|].
+        exists t, spub, encd. rewrite Hpd. auto. }
+      congruence.
   Qed.
 
   (* ---- connect ---- *)
-  Lemma connect_keys_iff p h c f1 pd f3 :
-    keys (connect p h c f1 pd f3) = true <-> exists reply, verify_credentials p h c f1 pd f3 = Accept reply.
+  Lemma connect_keys_iff k p h c f1 pd f3 pd4 :
+    keys (connect k p h c f1 pd f3 pd4) = true <-> exists reply, verify_credentials k p h c f1 pd f3 pd4 = Accept reply.
   Proof.
-    unfold Model.connect. destruct (verify_credentials p h c f1 pd f3) as [r|e]; cbn; split.
+    unfold Model.connect. destruct (verify_credentials k p h c f1 pd f3 pd4) as [r|e]; cbn; split.
     - intros _. now exists r.
     - reflexivity.
     - discriminate.
     - intros [r H]. discriminate.
   Qed.
 
-  Lemma connect_keys_iff_ok p h c f1 pd f3 :
-    keys (connect p h c f1 pd f3) = true <-> raised (connect p h c f1 pd f3) = None.
+  Lemma connect_keys_iff_ok k p h c f1 pd f3 pd4 :
+    keys (connect k p h c f1 pd f3 pd4) = true <-> raised (connect k p h c f1 pd f3 pd4) = None.
   Proof.
-    unfold Model.connect. destruct (verify_credentials p h c f1 pd f3); cbn; split; intro H; try reflexivity; discriminate.
+    unfold Model.connect. destruct (verify_credentials k p h c f1 pd f3 pd4); cbn; split; intro H; try reflexivity; discriminate.
   Qed.
 
   Lemma surface_reply_error p e : reply_error e -> surface p e = EAuthentication.
   Proof. intros [->|[->|[->|[->| ->]]]]; destruct p; reflexivity. Qed.
 
-  Lemma connect_reject p h c pd :
-    keys (connect p h c None pd None) = false ->
-    raised (connect p h c None pd None) = Some EAuthentication.
+  Lemma connect_reject k p h c pd pd4 :
+    keys (connect k p h c None pd None pd4) = false ->
+    raised (connect k p h c None pd None pd4) = Some EAuthentication.
   Proof.
-    unfold Model.connect. destruct (verify_credentials p h c None pd None) as [r|e] eqn:E; cbn; [discriminate|].
-    intros _. f_equal. apply surface_reply_error. exact (verify_credentials_raise_class _ _ _ _ _ E).
+    unfold Model.connect. destruct (verify_credentials k p h c None pd None pd4) as [r|e] eqn:E; cbn; [discriminate|].
+    intros _. f_equal. apply surface_reply_error. exact (verify_credentials_raise_class _ _ _ _ _ _ _ E).
   Qed.
 End P.
 
